@@ -1,3 +1,5 @@
+#[cfg(simple_dns_verif)]
+use simrt::shim_tokio as tokio;
 use crate::{
     socket_helper::{join_multicast, nonblocking, sender_socket},
     NetworkScope, SimpleMdnsError, UNICAST_RESPONSE,
